@@ -11,7 +11,7 @@ EXPLANATION = ('Minimality of the group count, maximal spread, single-index rema
                '(R16.2) the policy dispatch tables (is_forced, is_relevant_for_coupling, per-policy claim routine, `all` admission = full size); '
                '(R16.3) strict policies are measured against the optimum of the EMPTY worker and accepted with objective >= optimum - eps.')
 NOT_DECIDED = ['minimal number of groups, maximal spread, no spurious refusal as optimisation results over numbers (objective coefficients of group_solver are not judged); of the single-index fractional remainder only the bookkeeping shape is decided (R04.9 granted once, R16.4 admission measures the largest single fraction, R04.7 index order)']
-RELATED = {'C04': ['R04.3', 'R04.6', 'R04.7', 'R04.9']}
+RELATED = {'C04': ['R04.3', 'R04.6', 'R04.7', 'R04.9', 'R04.12']}
 ASSUMPTIONS = ['group_solver (MILP) is trusted']
 W = T + 'worker::'
 ALLOCATOR = W + 'resources::allocator::ResourceAllocator'
